@@ -453,7 +453,13 @@ def parseLine(raw, eols=(CRLF, LF, CR ), kind="event line"):
 
     Raise error if eol not found before MAX_LINE_SIZE
     """
+    halved = False  # True when line ended in CR at end of raw, LF may yet follow
     while True:
+        if halved and raw:  # CR LF pair split across receives is one eol
+            if raw[0:1] == LF:
+                del raw[0:1]
+            halved = False
+
         index = -1  # find earliest eol of any kind, longest kind if at same index
         for sep in eols:
             i = raw.find(sep)  # not found i == -1
@@ -475,6 +481,8 @@ def parseLine(raw, eols=(CRLF, LF, CR ), kind="event line"):
         line = raw[:index]
         index += len(eol)  # strip eol
         del raw[:index] # remove used bytes
+        if eol == CR and not raw and CRLF in eols:
+            halved = True
         (yield line)
     return
 
